@@ -226,6 +226,7 @@ def run(ctx):
         for i in range(10 if thorough else 3):
             k = rng.randrange(100)
             txt = inject_blank_lines(rng, (NESTED % {"k": k}) + "namespace tail%d {\nnamespace in%d {\nvoid f%d() {\n}\n}\n}\n" % (k, k, k), 0.6)
+            txt = txt.rstrip("\n") + "\n" * rng.randrange(1, 6)         # the file ends with the namespace brace and 0-4 blank lines
             p = sc.write(txt, ".cpp")
             for _ in range(6 if thorough else 4):
                 n = rng.choice([2, 3, 4])
